@@ -455,3 +455,121 @@ def unit_registry(prop="C08"):
         return u
     unit.__name__ = "alias_registry"
     return unit
+
+
+# ------------------------------------------------------------------------------------------ nested components (C08, third sentence)
+# "A computer built from a nested configuration computes what one assembled from explicitly constructed objects computes" rests on every
+# constructor that accepts a nested component handing exactly that argument to alias_factory_subclass_from_arg (unit above) with the
+# documented family, and using the RESULT from then on. That is a data-flow fact about each constructor, decided here on its AST:
+#   one call  alias_factory_subclass_from_arg(<Family>, <parameter>)  - first argument the family's name, second the bare parameter;
+#   its value is bound to the parameter's own name (or, base computer, to self._bank); the parameter is neither read nor rebound before
+#   that statement (a guard `if <parameter> is None:` around it excepted) and never rebound after it; for the optional window the guard's
+#   other branch builds GammaWindow() for the causal style and HannWindow() otherwise.
+NESTED = [
+    ("compute", "LinearFilterBankFrameComputer.__init__", "bank", "LinearFilterBank", False),
+    ("compute", "ShortTimeFourierTransformFrameComputer.__init__", "bank", "LinearFilterBank", False),
+    ("compute", "ShortTimeFourierTransformFrameComputer.__init__", "window_function", "WindowFunction", True),
+    ("compute", "ShortIntegrationFrameComputer.__init__", "bank", "LinearFilterBank", False),
+    ("compute", "ShortIntegrationFrameComputer.__init__", "window_function", "WindowFunction", True),
+    ("filters", "TriangularOverlappingFilterBank.__init__", "scaling_function", "ScalingFunction", False),
+    ("filters", "GaborFilterBank.__init__", "scaling_function", "ScalingFunction", False),
+    ("filters", "ComplexGammatoneFilterBank.__init__", "scaling_function", "ScalingFunction", False),
+]
+
+
+def _nested_facts(fn, param, family, optional):
+    """-> dict label -> bool, from the constructor's AST"""
+    import ast
+    body = fn.body
+    facts = {}
+
+    def is_factory_call(v):
+        return isinstance(v, ast.Call) and ast.unparse(v.func).split(".")[-1] == "alias_factory_subclass_from_arg"
+
+    calls = [(s, n) for s in ast.walk(fn) if isinstance(s, ast.Assign) for n in [s.value] if is_factory_call(n)
+             and len(n.args) == 2 and isinstance(n.args[1], ast.Name) and n.args[1].id == param]
+    facts["one_factory_call_on_the_bare_parameter"] = len(calls) == 1
+    if len(calls) != 1:
+        return facts
+    stmt, call = calls[0]
+    facts["family_is_the_documented_one"] = ast.unparse(call.args[0]).split(".")[-1] == family and not call.keywords
+    tgt = stmt.targets[0] if len(stmt.targets) == 1 else None
+    facts["result_rebinds_the_parameter_or_is_the_bank_attribute"] = tgt is not None and (
+        (isinstance(tgt, ast.Name) and tgt.id == param) or (param == "bank" and ast.unparse(tgt) == "self._bank"))
+    # position: top-level statement, or inside `if <param> is None: ... else: <stmt>` at top level
+    top_idx, guard = None, None
+    for i, s in enumerate(body):
+        if s is stmt:
+            top_idx = i
+        elif isinstance(s, ast.If) and any(x is stmt for x in ast.walk(s)):
+            top_idx, guard = i, s
+    facts["call_is_a_top_level_statement_or_under_the_none_guard"] = top_idx is not None and (guard is None or (
+        optional and ast.unparse(guard.test) == f"{param} is None" and len(guard.orelse) == 1 and guard.orelse[0] is stmt))
+    if top_idx is None:
+        return facts
+
+    def mentions(nodes, store=None):
+        out = []
+        for s in nodes:
+            for x in ast.walk(s):
+                if isinstance(x, ast.Name) and x.id == param and (store is None or isinstance(x.ctx, ast.Store) == store):
+                    out.append(x)
+        return out
+    facts["parameter_untouched_before_the_call"] = not mentions(body[:top_idx])
+    after_stores = mentions(body[top_idx + 1:], store=True)
+    facts["never_rebound_afterwards"] = not after_stores
+    if optional and guard is not None:
+        # the default branch: `if frame_style == "causal": <param> = GammaWindow() else: <param> = HannWindow()`
+        ok = False
+        if len(guard.body) == 1 and isinstance(guard.body[0], ast.If):
+            g = guard.body[0]
+            ok = (ast.unparse(g.test) in ("frame_style == 'causal'", 'frame_style == "causal"') and len(g.body) == 1 and len(g.orelse) == 1
+                  and ast.unparse(g.body[0]) == f"{param} = GammaWindow()" and ast.unparse(g.orelse[0]) == f"{param} = HannWindow()")
+        facts["default_window_gamma_for_causal_hann_otherwise"] = ok
+    elif optional:
+        facts["default_window_gamma_for_causal_hann_otherwise"] = False
+    return facts
+
+
+def unit_nested(prop="C08"):
+    def unit(tier, known):
+        from pyvc import extract
+        from pyvc.check import UnitResult
+        from pyvc.symex import Obligation
+        u = UnitResult("nested_components")
+        seen = set()
+        for mod, qual, param, family, optional in NESTED:
+            try:
+                fx = extract.get_function(mod, qual)
+            except KeyError as e:
+                u.outside.append((f"{mod}:{qual}", f"function not found: {e}"))
+                continue
+            if (mod, qual) not in seen:
+                seen.add((mod, qual))
+                d = fx.describe()
+                d["function"] = d["function"] + "#nested-component data flow (AST level)"
+                u.functions.append(d)
+            cls = qual.split(".")[0]
+            for label, ok in _nested_facts(fx.node, param, family, optional).items():
+                o = Obligation(f"{prop}.{cls}.__init__.{param}.{label}", [], z3.BoolVal(bool(ok)), "dataflow", fx.lineno)
+                u.obligations.append(o)
+        # Fbank takes no scaling function: its scale is the documented mel scale, built directly
+        try:
+            fx = extract.get_function("filters", "Fbank.__init__")
+            import ast
+            names = [a.arg for a in fx.node.args.args]
+            u.obligations.append(Obligation(f"{prop}.Fbank.__init__.takes_no_scaling_function", [], z3.BoolVal("scaling_function" not in names), "dataflow", fx.lineno))
+        except KeyError:
+            pass
+
+        def tc(ob):
+            # nested JSON-round-tripped configurations of the C08 stand-in (built from a seed), then the alias-argument cases
+            return [{"part": "nested", "seed": k} for k in range(60)] + to_case(ob)
+        u.to_case = tc
+        u.replay_module = "rtc.c08"
+        u.assumptions |= {"A-PYSEM", "A-JSON", "A-DET"}
+        if not u.obligations:
+            u.outside.append(("nested components", "no obligations generated"))
+        return u
+    unit.__name__ = "nested_components"
+    return unit
